@@ -45,9 +45,32 @@ def bipartite_graph(L, R, mask, as_nx=False):
     if as_nx:
         import networkx
         G = networkx.Graph()
-        G.add_nodes_from(range(1, L + 1), bipartite=0)
-        G.add_nodes_from(range(L + 1, L + R + 1), bipartite=1)
-        G.add_edges_from((u, v + L) for u, v in E)
+        # the documented conversion numbers each side in node insertion order; labels, the relative order of
+        # the two sides and the orientation in which an edge is listed mean nothing
+        variant = (mask + L + R) % 4
+        if variant == 0:
+            G.add_nodes_from(range(1, L + 1), bipartite=0)
+            G.add_nodes_from(range(L + 1, L + R + 1), bipartite=1)
+            G.add_edges_from((u, v + L) for u, v in E)
+            return G, E
+        left = lambda u: "l%d" % (L - u) if variant == 3 else 1000 - 7 * u
+        right = lambda v: "r%d" % v if variant == 3 else 3 * v
+        if variant == 1:                        # right side first
+            for v in range(1, R + 1):
+                G.add_node(right(v), bipartite=1)
+            for u in range(1, L + 1):
+                G.add_node(left(u), bipartite=0)
+        else:                                   # interleaved
+            for i in range(1, max(L, R) + 1):
+                if i <= R:
+                    G.add_node(right(i), bipartite=1)
+                if i <= L:
+                    G.add_node(left(i), bipartite=0)
+        for k, (u, v) in enumerate(reversed(E)):
+            if k % 3:
+                G.add_edge(right(v), left(u))
+            else:
+                G.add_edge(left(u), right(v))
         return G, E
     B = BipartiteGraph(L, R)
     for e in E:
@@ -159,8 +182,8 @@ def same_formula(A, B):
 
 def graph_history_check(ctx, fam, label, gen, r, n=6, rounds=3):
     """A generator's output must be a function of the graph's *current* state: build a formula, then edit the same
-    Graph object (swap an edge: vertex and edge counts unchanged; grow it by two vertices in one call and connect
-    them) and build again; the result must equal the formula of a freshly built graph with the same edges."""
+    Graph object (swap an edge: vertex and edge counts unchanged; switch two edges: degrees unchanged too; drop an
+    edge; grow it by two vertices in one call and connect them) and build again; the result must equal the formula of a freshly built graph with the same edges."""
     from cnfgen.graphs import Graph
     allp = pairs(n)
     E = set(r.sample(allp, r.randint(2, max(2, len(allp) // 2))))
@@ -171,8 +194,33 @@ def graph_history_check(ctx, fam, label, gen, r, n=6, rounds=3):
     if st == "exc":
         return
     for step in range(rounds):
-        kind = r.choice(["swap", "swap", "grow"])
-        if kind == "swap" and E and len(E) < len(allp):
+        kind = r.choice(["swap", "swap", "grow", "switch", "switch", "drop"])
+        sw = None
+        if kind == "switch":
+            # degree-preserving: ab, cd -> ac, bd keeps the vertex count, the edge count and every degree
+            for _ in range(40):
+                if len(E) < 2:
+                    break
+                (a, b), (c, d) = r.sample(sorted(E), 2)
+                if r.random() < 0.5:
+                    c, d = d, c
+                new2 = {tuple(sorted((a, c))), tuple(sorted((b, d)))}
+                if len({a, b, c, d}) == 4 and not (new2 & E):
+                    sw = ((a, b), tuple(sorted((c, d))), new2)
+                    break
+        if kind == "switch" and sw:
+            for e in sw[:2]:
+                G.remove_edge(*e)
+            for e in sorted(sw[2]):
+                G.add_edge(*e)
+            E = (E - set(sw[:2])) | sw[2]
+            what = "remove_edge%r; remove_edge%r; add_edge %r (degrees unchanged)" % (sw[0], sw[1], sorted(sw[2]))
+        elif kind == "drop" and len(E) > 1:
+            e = r.choice(sorted(E))
+            G.remove_edge(*e)
+            E = E - {e}
+            what = "remove_edge%r" % (e,)
+        elif kind in ("swap", "switch", "drop") and E and len(E) < len(allp):
             e = r.choice(sorted(E))
             f = r.choice(sorted(set(allp) - E))
             G.remove_edge(*e)
